@@ -513,7 +513,7 @@ func TestCheck(t *testing.T) {
 				vv.Scenario, vv.Trace = v.Scenario, v.Trace
 				r.Report(vv)
 			} else {
-				fmt.Println("replay: no violation reproduced")
+				vk.NoRepro()
 			}
 			break
 		}
